@@ -154,6 +154,12 @@ func (g *progGen) add(tx TxSpec) int {
 			tx.Gas = gasCall
 		}
 	}
+	// now and then a call is under-funded for its intrinsic gas: the sender is
+	// charged by buyGas, the message is rejected, the tx session is discarded
+	if tx.To != nil && tx.Note == "" && g.chance(3) {
+		tx.Gas = 21000 + uint64(g.pick(15))
+		tx.Note = "below-intrinsic"
+	}
 	switch g.mode {
 	case "each":
 		tx.EndBlock = true
@@ -734,7 +740,7 @@ var progTemplates = []struct {
 	{"logs", 6, (*progGen).tmplLogs},
 	{"touch-empty", 8, (*progGen).tmplTouchEmpty},
 	{"access-list", 6, (*progGen).tmplAccessList},
-	{"consensus", 4, (*progGen).tmplConsensus},
+	{"consensus", 6, (*progGen).tmplConsensus},
 	{"random-structured", 14, (*progGen).tmplRandom},
 	{"random-bytes", 6, (*progGen).tmplRandomBytes},
 }
